@@ -60,6 +60,27 @@ pub(crate) enum OpCode {
 
 const JUMP_PLACEHOLDER: u16 = 1337;
 
+/// Converts a code position or a count to a 16-bit operand.
+/// Yields an error (instead of a panic) if the program is too large for its operands.
+fn to_u16(value: usize) -> Result<u16, Error> {
+    if value > u16::MAX as usize {
+        return Err(Error::SyntaxError(
+            "programma is te groot: een positie of aantal past niet in 16 bits".to_string(),
+        ));
+    }
+    Ok(value as u16)
+}
+
+/// Converts a count to an 8-bit operand, or yields an error if it does not fit.
+fn to_u8(value: usize) -> Result<u8, Error> {
+    if value > u8::MAX as usize {
+        return Err(Error::SyntaxError(
+            "te veel argumenten: een functie accepteert maximaal 255 argumenten".to_string(),
+        ));
+    }
+    Ok(value as u8)
+}
+
 impl From<u8> for OpCode {
     #[inline(always)]
     fn from(value: u8) -> Self {
@@ -306,7 +327,7 @@ impl Compiler {
                 }?;
                 self.emit_opcode(OpCode::Null);
                 self.emit_opcode(OpCode::Jump);
-                self.emit_u16(pos.try_into().unwrap());
+                self.emit_u16(to_u16(pos)?);
             }
         }
 
@@ -341,7 +362,7 @@ impl Compiler {
         const_value: isize,
         operator: &Operator,
     ) -> Result<(), Error> {
-        let idx_constant = self.add_constant(Object::checked_int(Some(const_value))?);
+        let idx_constant = self.add_constant(Object::checked_int(Some(const_value))?)?;
         let symbol = self.symbols.resolve(varname);
         match symbol {
             Some(symbol) => {
@@ -385,19 +406,19 @@ impl Compiler {
             }
             Expr::Float { value } => {
                 let obj = Object::float(*value, &mut self.gc);
-                let idx = self.add_constant(obj);
+                let idx = self.add_constant(obj)?;
                 self.emit_opcode(OpCode::Const);
                 self.emit_u16(idx);
             }
             Expr::Int { value } => {
                 // integer literals may be larger than what fits in an integer value
-                let idx = self.add_constant(Object::checked_int(Some(*value))?);
+                let idx = self.add_constant(Object::checked_int(Some(*value))?)?;
                 self.emit_opcode(OpCode::Const);
                 self.emit_u16(idx);
             }
             Expr::String { value } => {
                 let obj = Object::string(value.as_str(), &mut self.gc);
-                let idx = self.add_constant(obj);
+                let idx = self.add_constant(obj)?;
                 self.emit_opcode(OpCode::Const);
                 self.emit_u16(idx);
             }
@@ -537,10 +558,7 @@ impl Compiler {
                 self.emit_opcode(OpCode::Jump);
                 self.emit_u16(JUMP_PLACEHOLDER);
 
-                self.change_jump_operand_at(
-                    pos_jump_if_false,
-                    self.instructions.len().try_into().unwrap(),
-                );
+                self.change_jump_operand_at(pos_jump_if_false, to_u16(self.instructions.len())?);
 
                 if let Some(alternative) = alternative {
                     self.compile_block_statement(alternative)?;
@@ -552,7 +570,7 @@ impl Compiler {
                 }
 
                 // Change operand of last JumpIfFalse opcode to where we're currently at
-                self.change_jump_operand_at(pos_jump, self.instructions.len().try_into().unwrap());
+                self.change_jump_operand_at(pos_jump, to_u16(self.instructions.len())?);
             }
             Expr::While { condition, body } => {
                 // TODO: Can we get rid of this now that empty block statement emit a NULL?
@@ -576,18 +594,15 @@ impl Compiler {
 
                 // emit jump instruction to loop condition
                 self.emit_opcode(OpCode::Jump);
-                self.emit_u16(pos_before_condition.try_into().unwrap());
+                self.emit_u16(to_u16(pos_before_condition)?);
 
                 // Update jump statement for when initial condition evaluated to false (should skip over entire loop)
-                self.change_jump_operand_at(
-                    pos_jump_if_false,
-                    self.instructions.len().try_into().unwrap(),
-                );
+                self.change_jump_operand_at(pos_jump_if_false, to_u16(self.instructions.len())?);
 
                 // Update jump statements for every break statement inside this loop
                 let ctx = self.loop_contexts.pop().unwrap();
                 for ip in ctx.break_instructions {
-                    self.change_jump_operand_at(ip, self.instructions.len().try_into().unwrap());
+                    self.change_jump_operand_at(ip, to_u16(self.instructions.len())?);
                 }
             }
             Expr::Function {
@@ -627,17 +642,17 @@ impl Compiler {
                     self.emit_opcode(OpCode::Return);
                 }
 
-                self.change_jump_operand_at(pos_jump, self.instructions.len().try_into().unwrap());
+                self.change_jump_operand_at(pos_jump, to_u16(self.instructions.len())?);
 
                 // Switch back to previous scope again
                 let num_locals = self.symbols.leave_context();
 
                 // Create function object and store as constant
                 let obj = Object::function(
-                    pos_start_function.try_into().unwrap(),
-                    num_locals.try_into().unwrap(),
+                    to_u16(pos_start_function)? as u32,
+                    to_u16(num_locals)?,
                 );
-                let idx = self.add_constant(obj);
+                let idx = self.add_constant(obj)?;
                 self.emit_opcode(OpCode::Const);
                 self.emit_u16(idx);
 
@@ -664,13 +679,13 @@ impl Compiler {
                     if let Some(builtin) = builtins::resolve(name) {
                         self.emit_opcode(OpCode::CallBuiltin);
                         self.emit_u8(builtin as u8);
-                        self.emit_u8(arguments.len().try_into().unwrap());
+                        self.emit_u8(to_u8(arguments.len())?);
                         break 'compile_call;
                     }
                 }
                 self.compile_expression(left)?;
                 self.emit_opcode(OpCode::Call);
-                self.emit_u8(arguments.len().try_into().unwrap());
+                self.emit_u8(to_u8(arguments.len())?);
             }
 
             Expr::Array { values } => {
@@ -678,7 +693,7 @@ impl Compiler {
                     self.compile_expression(v)?;
                 }
                 self.emit_opcode(OpCode::Array);
-                self.emit_u16(values.len().try_into().unwrap());
+                self.emit_u16(to_u16(values.len())?);
             }
 
             Expr::Index { left, index } => {
@@ -691,19 +706,19 @@ impl Compiler {
         Ok(())
     }
 
-    fn add_constant(&mut self, obj: Object) -> u16 {
+    fn add_constant(&mut self, obj: Object) -> Result<u16, Error> {
         // re-use already defined constants
         if let Some(pos) = self
             .constants
             .iter()
             .position(|c| c.tag() == obj.tag() && c == &obj)
         {
-            return pos.try_into().unwrap();
+            return to_u16(pos);
         }
 
         let idx = self.constants.len();
         self.constants.push(obj);
-        idx.try_into().unwrap()
+        to_u16(idx)
     }
 }
 
